@@ -82,9 +82,9 @@ def axioms(ctx, sym):
                 bad("parity-additive", f"parity(combine({a!r},{b!r}))")
     E3 = ELEMS3[sym]
     trip = list(itertools.product(E3, repeat=3))
-    if ctx.quick and len(trip) > 4000:
+    if ctx.quick and len(trip) > 40000:
         rng = __import__("random").Random(f"{ctx.seed}:{sym}:trip")
-        trip = rng.sample(trip, 4000)
+        trip = rng.sample(trip, 40000)
     for k, (a, b, c) in enumerate(trip):
         if k % ctx.nshards != ctx.shard:
             continue
@@ -209,7 +209,7 @@ def run(ctx):
         n = len(allc)
         if ctx.quick:
             pick = random.Random(f"{ctx.seed}:{sym}:pick")
-            sel = sorted(pick.sample(range(n), min(n, 900)))
+            sel = sorted(pick.sample(range(n), min(n, ctx.budget(12000, 12000))))
         else:
             sel = range(n)
         ctx.notes[f"sector_case_space_{sym}"] = n if ctx.shard == 0 else 0
